@@ -12,10 +12,10 @@ pub fn prop() -> Prop {
     Prop {
         id: "C03",
         level: "model_checking",
-        rule: "configurations = set(2) x split(3, one reading a --set variable) x filter(3, one a --set macro) x select(4, one reading a previously selected name) x unique(2) x sort(5: none, 1 key both directions, 2 keys, a selected name) x skip(3) x take(3) x {none, --group-by, --merge, --group-by on a selected name} x only-objects-and-arrays(2) = 51 840 (quick: the 17 280 with --set given and a filter); inputs = all sequences of <=2 (thorough <=3) values over 8 records (ties, absent and non-string keys, empty and missing arrays, a scalar, an array, integers that differ only beyond 2^53) and cyclic repetitions to 17 and 40 rows for every 13th configuration; every configuration is also run with its option groups reversed and rotated (relative order of repeated --select/--sort-by kept), and every 211th with all permutations of its option groups; and with each of --regular-expression-cache-size, --on-error=stderr/panic/stdout added at a varying position (nothing may change on a clean input); non-trivial = at least two stages are active and something is printed; distinct by construction",
+        rule: "configurations = set(2) x split(3, one reading a --set variable) x filter(3, one a --set macro) x select(4, one reading a previously selected name) x unique(2) x sort(5: none, 1 key both directions, 2 keys, a selected name) x skip(3) x take(3) x {none, --group-by, --merge, --group-by on a selected name} x only-objects-and-arrays(2) = 51 840 (quick: the 17 280 with --set given and a filter); inputs = all sequences of <=2 (thorough <=3) values over 8 records (ties, absent and non-string keys, empty and missing arrays, a scalar, an array, integers that differ only beyond 2^53) and cyclic repetitions to 17 and 40 rows for every 13th configuration; every configuration is also run with its option groups reversed and rotated (relative order of repeated --select/--sort-by kept), and every 211th with all permutations of its option groups; and with each of --regular-expression-cache-size, --on-error=stderr/panic/stdout added at a varying position (nothing may change on a clean input); non-trivial = at least two stages are active and something is printed; distinct by construction; plus, for 10 configurations whose stage expressions read the position of a record (&index, &index-in-file) or not, every sequence of <=4 values over 2 records, an array and 3 scalars with --only-objects-and-arrays against the same sequence without its scalars",
         explanation: "stdout rows are compared with the reference pipeline (pure list transformations in the documented order); argument orders are compared byte for byte with the canonical order",
         assumptions: COMMON_ASSUMPTIONS.to_vec(),
-        guards: vec!["irrelevant-option-added", "limiter-before-grouper", "two-sort-keys-with-take", "split-reads-set-variable", "sort-by-selected-name", "all-group-permutations", "scalar-removed-by-only-objects-and-arrays", "unique-removed-a-row", "group-by-selected-name"],
+        guards: vec!["scalars-removed-before-position-dependent-stages", "irrelevant-option-added", "limiter-before-grouper", "two-sort-keys-with-take", "split-reads-set-variable", "sort-by-selected-name", "all-group-permutations", "scalar-removed-by-only-objects-and-arrays", "unique-removed-a-row", "group-by-selected-name"],
         budget_s: (150, 3000),
         single_worker: false,
         run,
@@ -248,4 +248,57 @@ fn run(ctx: &mut Ctx) {
         }
     }
     ctx.level_done(&format!("{}-configurations-x-all-inputs-of-<={maxlen}-records", n));
+    ooa_removes_scalars_before_the_stages(ctx);
+}
+
+/// "after --only-objects-and-arrays has removed top-level scalars": the stages see exactly the sequence that remains,
+/// so with the flag the output for a sequence equals the output for the same sequence without its scalars - also for
+/// stage expressions that look at the position of a record in the input (&index, &index-in-file), which the
+/// reference pipeline does not model.
+fn ooa_removes_scalars_before_the_stages(ctx: &mut Ctx) {
+    let universe = ["{\"a\": 1}", "[2]", "3", "\"s\"", "null", "{\"a\": 1, \"b\": [true]}"];
+    let is_record = |i: usize| universe[i].starts_with('{') || universe[i].starts_with('[');
+    let configs: [&[&str]; 10] = [
+        &["--select=&index=i", "--select=.=v"],
+        &["--filter=(= (% &index 2) 0)"],
+        &["--group-by=(stringify &index)"],
+        &["--sort-by=&index=DESC"],
+        &["--select=(% &index-in-file 2)=p", "--unique"],
+        &["--select=&index=i", "--select=&index-in-file=j", "--skip=1", "--take=2"],
+        &["--split-by=(push [] . &index)"],
+        &["--set=one=1", "--select=(+ &index :one)=n", "--sort-by=(- 0 /n/)"],
+        &["--select=.a=a", "--sort-by=.a", "--merge"],
+        &["--unique", "--take=2"],
+    ];
+    let mut seqs: Vec<Vec<usize>> = Vec::new();
+    crate::explore::seqs_upto(universe.len(), 4, |s| seqs.push(s.to_vec()));
+    for (ci, cfg) in configs.iter().enumerate() {
+        for s in &seqs {
+            if !s.iter().any(|i| !is_record(*i)) || !ctx.mine() {
+                continue;
+            }
+            let text = |idx: &[usize]| -> Vec<u8> { idx.iter().map(|i| format!("{}\n", universe[*i])).collect::<String>().into_bytes() };
+            let kept: Vec<usize> = s.iter().cloned().filter(|i| is_record(*i)).collect();
+            let mut args: Vec<String> = cfg.iter().map(|a| a.to_string()).collect();
+            args.insert(ci % (args.len() + 1), "--only-objects-and-arrays".into());
+            let with_scalars = Case::owned(args.clone(), text(s));
+            let without = Case::owned(args, text(&kept));
+            let a = ctx.run(&with_scalars);
+            let b = ctx.run(&without);
+            ctx.case_done();
+            ctx.trace_validated();
+            ctx.guard("scalars-removed-before-position-dependent-stages");
+            if !kept.is_empty() && kept.first() != s.first() {
+                ctx.nontrivial();
+            }
+            ctx.transition(&("ooa-removal", ci, kept.len(), s.len()));
+            if a.res != b.res || a.stdout != b.stdout {
+                ctx.outcome("differs");
+                ctx.violation("removed-scalars-still-visible-to-the-stages", &format!("ooa config#{ci} {:?}", cfg), &[with_scalars.clone(), without.clone()], b.brief(), a.brief());
+            } else {
+                ctx.outcome("agrees");
+            }
+        }
+    }
+    ctx.level_done("only-objects-and-arrays:sequence-with-scalars-vs-the-same-sequence-without-them(10-configurations,<=4-values)");
 }
